@@ -2,6 +2,8 @@
 //! models. One sub-command per property.
 
 mod c02;
+mod c04;
+mod te;
 
 fn main() {
     let args: Vec<String> = std::env::args().collect();
@@ -29,6 +31,7 @@ fn main() {
     }
     let code = match prop {
         "C02" => c02::run(&tier, replay.as_deref()),
+        "C04" | "C20" => c04::run(prop, &tier, replay.as_deref()),
         _ => {
             eprintln!("seqmc: unknown property {prop}");
             2
